@@ -5,6 +5,7 @@ package main
 import (
 	"bytes"
 	"fmt"
+	gonet "net"
 	"strings"
 	"sync/atomic"
 	"time"
@@ -13,7 +14,7 @@ import (
 	"github.com/lugu/qiloop/bus/net"
 )
 
-func c11Exec(sc c11Scenario, f c11Fault, hold bool, hang time.Duration) *c11Obs {
+func c11Exec(sc c11Scenario, f c11Fault, hold bool, wrap string, hang time.Duration) *c11Obs {
 	o := &c11Obs{calls: make([]int, sc.n), callLat: make([]time.Duration, sc.n), subClosed: make([]bool, sc.m),
 		subRead: make([]int, sc.m), subEarly: make([]bool, sc.m), cbEarly: make([]bool, sc.d), cbCount: make([]int, sc.d),
 		replied: make([]bool, sc.n), early: make([]bool, sc.n), payloadOK: make([]bool, sc.n)}
@@ -27,7 +28,13 @@ func c11Exec(sc c11Scenario, f c11Fault, hold bool, hang time.Duration) *c11Obs 
 		r.cancelCh[c] = make(chan struct{})
 	}
 	r.st = newC11Stream(20*hang + 30*time.Second)
-	r.ep = net.NewEndPoint(r.st)
+	if wrap == "conn" {
+		// what dialTCP/dialTLS/dialUNIX and connListener.Accept build for every connection
+		r.st.clErr = &gonet.OpError{Op: "read", Net: "c11", Err: gonet.ErrClosed}
+		r.ep = net.ConnEndPoint(c11Conn{r.st})
+	} else {
+		r.ep = net.NewEndPoint(r.st)
+	}
 	r.cl = bus.NewClient(bus.NewContext(r.ep))
 	for pos, step := range sc.script {
 		if o.aborted != "" {
